@@ -3,10 +3,59 @@ package main
 // Built-in models of dependency functions (assumed; listed in evidence as trusted).
 
 import (
+	"fmt"
 	"go/types"
+	"math/big"
+	"strings"
 
 	"golang.org/x/tools/go/ssa"
 )
+
+func leDecode(n int, row, off *Term) *Term {
+	args := make([]*Term, n)
+	for k := 0; k < n; k++ {
+		args[k] = Select(row, Add(off, IntLit(int64(k))))
+	}
+	return App(fmt.Sprintf("le%d", n), SInt, args...)
+}
+
+// codecPrelude: declarations and axioms of the little-endian / CRC abstraction.
+func codecPrelude(seen map[string]bool) (string, bool) {
+	var sb strings.Builder
+	quant := false
+	if seen["byteOf"] || seen["le2"] || seen["le4"] || seen["le8"] {
+		quant = true
+		sb.WriteString("(declare-fun byteOf (Int Int) Int)\n")
+		sb.WriteString("(assert (forall ((v Int) (k Int)) (! (and (<= 0 (byteOf v k)) (<= (byteOf v k) 255)) :pattern ((byteOf v k)))))\n")
+		for _, n := range []int{2, 4, 8} {
+			vars, names, bytes, inv := "", "", "", ""
+			for k := 0; k < n; k++ {
+				vars += fmt.Sprintf("(a%d Int) ", k)
+				names += fmt.Sprintf("a%d ", k)
+				bytes += fmt.Sprintf("(byteOf v %d) ", k)
+				inv += fmt.Sprintf("(=> (and (<= 0 a%d) (<= a%d 255)) true) ", k, k)
+			}
+			limit := new(big.Int).Lsh(big.NewInt(1), uint(8*n)).String()
+			fmt.Fprintf(&sb, "(declare-fun le%d (%s) Int)\n", n, strings.TrimSpace(strings.Repeat("Int ", n)))
+			fmt.Fprintf(&sb, "(assert (forall (%s) (! (and (<= 0 (le%d %s)) (< (le%d %s) %s)) :pattern ((le%d %s)))))\n", vars, n, names, n, names, limit, n, names)
+			fmt.Fprintf(&sb, "(assert (forall ((v Int)) (! (=> (and (<= 0 v) (< v %s)) (= (le%d %s) v)) :pattern ((le%d %s)))))\n", limit, n, bytes, n, bytes)
+			// byteOf(leN(a..), k) = a_k for byte-valued a
+			guard, eqs := "", ""
+			for k := 0; k < n; k++ {
+				guard += fmt.Sprintf("(<= 0 a%d) (<= a%d 255) ", k, k)
+				eqs += fmt.Sprintf("(= (byteOf (le%d %s) %d) a%d) ", n, names, k, k)
+			}
+			fmt.Fprintf(&sb, "(assert (forall (%s) (! (=> (and %s) (and %s)) :pattern ((le%d %s)))))\n", vars, guard, eqs, n, names)
+		}
+	}
+	if seen["crcUpd"] {
+		quant = true
+		sb.WriteString("(declare-fun crcUpd (Int Str) Int)\n")
+		sb.WriteString("(assert (forall ((c Int) (s Str)) (! (and (<= 0 (crcUpd c s)) (< (crcUpd c s) 4294967296)) :pattern ((crcUpd c s)))))\n")
+		sb.WriteString("(assert (forall ((c Int) (s Str) (t Str)) (! (= (crcUpd (crcUpd c s) t) (crcUpd c (sconcat s t))) :pattern ((crcUpd (crcUpd c s) t)))))\n")
+	}
+	return sb.String(), quant
+}
 
 type externModel func(fr *Frame, ins ssa.Instruction, callee *ssa.Function, args []Val, st *State) Val
 
@@ -48,6 +97,34 @@ func init() {
 	reg("bytes.Compare", "sign of a total order on byte strings (rank), 0 iff equal", func(fr *Frame, ins ssa.Instruction, callee *ssa.Function, args []Val, st *State) Val {
 		a, b := bytesToString(args[0], st), bytesToString(args[1], st)
 		return scalar(Ite(StrEq(a, b), IntLit(0), Ite(Lt(StrRank(a), StrRank(b)), IntLit(-1), IntLit(1))), it)
+	})
+	// ---- little-endian codecs: byte k of v is byteOf(v,k); decoding is leN(bytes...) with inverse axioms
+	for _, n := range []int{2, 4, 8} {
+		n := n
+		bits := fmt.Sprint(n * 8)
+		reg("encoding/binary.littleEndian.PutUint"+bits, "writes byteOf(v,k) at b[k], k<"+fmt.Sprint(n)+"; panics when len(b) is too short", func(fr *Frame, ins ssa.Instruction, callee *ssa.Function, args []Val, st *State) Val {
+			b, v := args[1], args[2].S
+			fr.panicCheck("panic.call", ins, st, Ge(b.F[2].S, IntLit(int64(n))), "PutUint"+bits+" on a slice shorter than "+fmt.Sprint(n))
+			h := byteHeap(st)
+			row := Select(h, b.F[0].S)
+			for k := 0; k < n; k++ {
+				row = Store(row, Add(b.F[1].S, IntLit(int64(k))), App("byteOf", SInt, v, IntLit(int64(k))))
+			}
+			st.setH(elemKey(byteType), Store(h, b.F[0].S, row))
+			return Val{K: KUnit}
+		})
+		reg("encoding/binary.littleEndian.Uint"+bits, "le"+fmt.Sprint(n)+"(b[0..]) with inverse axioms; panics when len(b) is too short", func(fr *Frame, ins ssa.Instruction, callee *ssa.Function, args []Val, st *State) Val {
+			b := args[1]
+			fr.panicCheck("panic.call", ins, st, Ge(b.F[2].S, IntLit(int64(n))), "Uint"+bits+" on a slice shorter than "+fmt.Sprint(n))
+			row := Select(byteHeap(st), b.F[0].S)
+			return scalar(leDecode(n, row, b.F[1].S), callee.Signature.Results().At(0).Type())
+		})
+	}
+	reg("hash/crc32.ChecksumIEEE", "crcUpd(0, bytes) (uninterpreted, chaining axiom)", func(fr *Frame, ins ssa.Instruction, callee *ssa.Function, args []Val, st *State) Val {
+		return scalar(App("crcUpd", SInt, IntLit(0), bytesToString(args[0], st)), types.Typ[types.Uint32])
+	})
+	reg("hash/crc32.Update", "crcUpd(c, bytes) (uninterpreted, chaining axiom)", func(fr *Frame, ins ssa.Instruction, callee *ssa.Function, args []Val, st *State) Val {
+		return scalar(App("crcUpd", SInt, args[0].S, bytesToString(args[2], st)), types.Typ[types.Uint32])
 	})
 	reg("bytes.HasPrefix", "uninterpreted prefix predicate with order axioms", func(fr *Frame, ins ssa.Instruction, callee *ssa.Function, args []Val, st *State) Val {
 		return scalar(HasPrefixS(bytesToString(args[0], st), bytesToString(args[1], st)), bt)
